@@ -134,25 +134,17 @@ pub mod model {
         s.wrapping_add(0x2468)
     }
 
-    /// master switch: when off, queries are only counted (no log entry is written)
-    pub static mut LOG_ON: bool = false;
-    pub fn set_log(on: bool) {
-        unsafe {
-            LOG_ON = on;
-        }
+    /// Without the `oraclelog` feature the oracle is a pure function (no global state is touched:
+    /// Kani 0.68 / CBMC 6.11 report spurious invalid-pointer failures after writes to some statics).
+    #[cfg(not(feature = "oraclelog"))]
+    pub(crate) fn record(tag: u8, msgs: &[&[u8]], dsts: &[&[u8]], len_in_bytes: usize) -> u16 {
+        fold(tag, msgs, dsts, len_in_bytes)
     }
 
+    #[cfg(feature = "oraclelog")]
     pub(crate) fn record(tag: u8, msgs: &[&[u8]], dsts: &[&[u8]], len_in_bytes: usize) -> u16 {
         let mut state = fold(tag, msgs, dsts, len_in_bytes);
         unsafe {
-            if !LOG_ON {
-                let k = NQ;
-                if PROG_IDX == k {
-                    state = PROG_STATE;
-                }
-                NQ = k + 1;
-                return state;
-            }
             let k = NQ;
             if PROG_IDX == k {
                 state = PROG_STATE;
